@@ -70,7 +70,7 @@ theorem loops_ok {K : Nat} (f : Nat) :
       | cons cur rest =>
         rw [outer_cons]
         split
-        · exact h
+        · exact ihO D rest st h hD
         · exact ihI D cur rest st h hD
     · intro D cur rest st h hD
       cases hcbs : (st.get cur).callbacks with
